@@ -6,7 +6,9 @@ FORMATS = ["md5", "sha1", "xxh128", "xxh3", "xxh64", "c4"]
 FILE_NAMES = ["a.txt", "b.txt", "c.bin", "d e.txt", "ü.txt", "x&y.txt", "z<1>.txt", "q'\".txt", "日本.txt", "data.tmp", "keep.bak", "A001.mov", "a001.mov", "é.txt", "é.txt", "long" + "n" * 40 + ".dat", "-.txt", "#h.txt", "[b].txt", "li\u2028ne.txt", "𝄞 clef.txt"]
 DIR_NAMES = ["A", "AB", "a", "s", "t", "sub dir", "é", "pa\u2029ra", "Clips", "Clips_proxy", "tmp", "B", "x&y", "d.tmp"]
 CONTENTS = ["", "a", "b", "hello", "HELLO", "hello\n", "0", "\x00\xff", "same", "same", "x" * 100]
-PATTERNS = ["*.tmp", "*.bak", "tmp", "tmp/", "a.txt", "A", "s/", "*.mov", "d?e.txt", "[ab].txt", "Clips", "é", "data.*", "t"]
+PATTERNS = ["*.tmp", "*.bak", "tmp", "tmp/", "a.txt", "A", "s/", "*.mov", "d?e.txt", "[ab].txt", "Clips", "é", "data.*", "t", "s/t", "/a.txt", "A/*.txt", "s/*.bin"]
+# order matters in these: a negation re-includes what an EARLIER pattern excluded
+PATTERN_SETS = [["*.txt", "!a.txt"], ["*.tmp", "!data.tmp"], ["*.bak", "!keep.bak"], ["*", "!*.txt"], ["A", "!A"], ["*.mov", "!A001.mov", "a001.mov"], ["!a.txt", "*.txt"], ["s/", "!s/"], ["/s", "!b.txt"]]
 
 
 class FsSim:
@@ -171,6 +173,8 @@ def gen_scenario(seed, profile="general", n_ops=(3, 9)):
             if rnd.random() < 0.25:
                 # with replacement: the same pattern twice in one batch is intended
                 kw["i"] = rnd.choices(PATTERNS, k=rnd.randint(1, 3)) if rnd.random() < 0.4 else rnd.sample(PATTERNS, rnd.randint(1, 2))
+                if rnd.random() < 0.3:
+                    kw["i"] = list(rnd.choice(PATTERN_SETS))
             if rnd.random() < 0.12:
                 kw["ii"] = rnd.choices(PATTERNS[:6], k=rnd.randint(1, 4))
             if rnd.random() < 0.2:
